@@ -14,7 +14,7 @@ git -C $W apply "$P" || { echo "PATCH DOES NOT APPLY"; exit 3; }
 cd /verif
 VERIF_REPO=$W VERIF_BUILD=/verif/build/alt ./check $ID --tier $TIER > /tmp/mut/last.log 2>&1
 rc=$?
-grep -aE "^VIOLATION|^KNOWN-FINDING|^MACHINERY|^--- violation" /tmp/mut/last.log | head -12
+grep -aE "^VIOLATION|^KNOWN-FINDING|^MACHINERY|^--- violation" /tmp/mut/last.log | head -60
 echo "exit=$rc"
 git -C $W checkout -q -- .
 exit 0
